@@ -42,7 +42,13 @@ let corpus = [ Hist
   { mode = "psync"; start = 1000; runid = "abc"; nrdb = 5; seed_r = 1; ncmd = 993; seed_c = 2; chunk = 4096; pause_us = 0; quiet = true;
     conns = [ { hdr = "+FULLRESYNC abc 1000\r\n\n$5\r\n"; acts = [ "S33"; "M"; "F"; "W200"; "S100"; "W1400"; "W2200"; "S50"; "W3300"; "D" ] };
               { hdr = "+CONTINUE\r\n"; acts = [ "W300"; "S500"; "W1400"; "S342"; "W2300" ] } ];
-    note = "F11 witness" } ]
+    note = "F11 witness" };
+  (* a fresh master (offset 0) whose link drops before the first stream byte: the tool must ask for offset 1 *)
+  Hist
+  { mode = "psync"; start = 0; runid = "abc"; nrdb = 5; seed_r = 1; ncmd = 300; seed_c = 2; chunk = 4096; pause_us = 0; quiet = true;
+    conns = [ { hdr = "+FULLRESYNC abc 0\r\n$5\r\n"; acts = [ "S28"; "M"; "W60"; "F"; "W1300"; "D" ] };
+              { hdr = "+CONTINUE\r\n"; acts = [ "S11"; "W300"; "S300"; "W1400" ] } ];
+    note = "stream position 0 at the reconnection" } ]
 
 let e2e_cmd_bytes (e : e2e) = String.concat "" (List.map Incrgen.resp_bytes e.cmds)
 let to_line = function
